@@ -187,6 +187,10 @@ struct Gen {
     f_stale: bool,
     f_replace: bool,
     f_burst: bool,
+    /// only account 1 ever uses this node's mempool (see `generate`)
+    solo: bool,
+    /// blocks carry at most one transaction (see `generate`)
+    small_cache: bool,
 }
 
 impl Gen {
@@ -266,8 +270,16 @@ impl Gen {
         }
     }
 
+    fn submitter(&mut self) -> usize {
+        if self.solo {
+            1
+        } else {
+            self.r.below_usize(self.cfg.n_accounts)
+        }
+    }
+
     fn submit(&mut self) {
-        let acct = self.r.below_usize(self.cfg.n_accounts);
+        let acct = self.submitter();
         let mut weights = [70u32, 0, 0, 0, 4];
         if self.f_gap {
             weights[1] = 14;
@@ -357,7 +369,7 @@ impl Gen {
 
     fn flood(&mut self) {
         // one account parks many gapped nonces (per-account and total parked limits)
-        let acct = self.r.below_usize(self.cfg.n_accounts);
+        let acct = self.submitter();
         let n = 14 + self.r.below(6) as u32;
         for k in 1..=n {
             let body = Body::Seq {
@@ -380,7 +392,7 @@ impl Gen {
     }
 
     fn block(&mut self, flush: bool) {
-        let max_txs = if flush {
+        let mut max_txs = if flush {
             100
         } else {
             *self.r.pick(&[0, 1, 1, 2, 3, 5, 100])
@@ -393,13 +405,15 @@ impl Gen {
                 let busiest = (0..self.cfg.n_accounts)
                     .max_by_key(|a| (self.busy[*a], *a))
                     .unwrap_or(0);
-                let acct = if self.r.chance(2, 3) {
+                let acct = if self.solo {
+                    self.r.below_usize(2)
+                } else if self.r.chance(2, 3) {
                     busiest
                 } else {
                     self.r.below_usize(self.cfg.n_accounts)
                 };
                 let big = self.r.chance(3, 4);
-                let body = if acct == 0 && self.f_feechange && self.r.chance(1, 3) {
+                let body = if acct == 0 && self.f_feechange && self.r.chance(if self.solo { 3 } else { 1 }, 3) {
                     Body::FeeChange {
                         target: self.r.below(2) as u8,
                         base: *self.r.pick(&[0, 5, 50, 500, 5000]),
@@ -409,6 +423,15 @@ impl Gen {
                     self.body(acct, big)
                 };
                 foreign.push((acct, body));
+            }
+        }
+        if self.small_cache {
+            // at most one transaction per block
+            if foreign.is_empty() {
+                max_txs = max_txs.min(1);
+            } else {
+                foreign.truncate(1);
+                max_txs = 0;
             }
         }
         let commit = flush || !(self.f_failed_round && self.r.chance(1, 5));
@@ -466,6 +489,27 @@ pub fn generate(profile: &str, tier: &str, seed: u64) -> Scenario {
         }
         init_balance.push(row);
     }
+    let f_gap = r.chance(4, 5);
+    let f_dup = r.chance(2, 3);
+    let f_foreign = r.chance(4, 5);
+    let f_feechange = r.chance(1, 2);
+    let f_ttl = r.chance(1, 4);
+    let f_failed_round = r.chance(1, 3);
+    let f_stale = r.chance(1, 2);
+    let f_replace = r.chance(1, 2);
+    let f_burst = r.chance(1, 2);
+    // Two places in the mempool let HashMap/HashSet iteration order (RandomState, not seedable)
+    // decide an outcome: (1) run_maintenance visits accounts in HashSet order, and when the parked
+    // pool is (nearly) full, which account's demotion still finds a slot depends on that order;
+    // (2) RecentExecutionResults::add inserts one block's results in HashMap order, which decides
+    // what a too-small cache evicts. Runs must be reproducible, so the generator only combines
+    // * a small total parked limit with sources of demotion (foreign spenders, fee changes) when a
+    //   single account uses this node's mempool (`solo`), and
+    // * a small execution-results cache with blocks of at most one transaction (`small_cache`).
+    let demotion_sources = f_foreign || f_feechange;
+    let solo = demotion_sources && r.chance(1, 3);
+    let small_cache = r.chance(1, 4);
+    let parked_small = *r.pick(&[2, 5, 10, 16, 30, 100, 100]);
     let cfg = Config {
         profile: if profile.is_empty() {
             "cometbft".to_string()
@@ -475,8 +519,16 @@ pub fn generate(profile: &str, tier: &str, seed: u64) -> Scenario {
         n_accounts,
         n_assets,
         n_fee_assets,
-        parked_max: *r.pick(&[2, 5, 10, 16, 30, 100, 100]),
-        exec_cache: *r.pick(&[1, 3, 100]),
+        parked_max: if demotion_sources && !solo {
+            100
+        } else {
+            parked_small
+        },
+        exec_cache: if small_cache {
+            *r.pick(&[1, 3])
+        } else {
+            1000
+        },
         yield_pct: *r.pick(&[0, 5, 20, 50]),
         sched_seed: r.next_u64(),
         sched_mode: r.below(2) as u8,
@@ -488,15 +540,17 @@ pub fn generate(profile: &str, tier: &str, seed: u64) -> Scenario {
         fee_seq: (*r.pick(&[0, 1, 32]), *r.pick(&[0, 1, 3])),
     };
     let mut g = Gen {
-        f_gap: r.chance(4, 5),
-        f_dup: r.chance(2, 3),
-        f_foreign: r.chance(4, 5),
-        f_feechange: r.chance(1, 2),
-        f_ttl: r.chance(1, 4),
-        f_failed_round: r.chance(1, 3),
-        f_stale: r.chance(1, 2),
-        f_replace: r.chance(1, 2),
-        f_burst: r.chance(1, 2),
+        f_gap,
+        f_dup,
+        f_foreign,
+        f_feechange,
+        f_ttl,
+        f_failed_round,
+        f_stale,
+        f_replace,
+        f_burst,
+        solo,
+        small_cache,
         r: r.fork(1),
         cfg,
         ops: Vec::new(),
@@ -539,9 +593,11 @@ pub fn generate(profile: &str, tier: &str, seed: u64) -> Scenario {
             }
         }
     }
-    // flush: two committed full blocks, then status polls
-    g.block(true);
-    g.block(true);
+    // flush: committed blocks that drain the mempool
+    let flushes = if small_cache { 8 } else { 2 };
+    for _ in 0..flushes {
+        g.block(true);
+    }
     Scenario {
         cfg: g.cfg,
         ops: g.ops,
